@@ -22,12 +22,18 @@ def q2f(v):
     return float("inf") if v >= INF_Q else float("-inf") if v <= -INF_Q else v / 4.0
 
 
+def _coin(sc, what):
+    """A reproducible coin per (scenario, purpose): the switches of the driver must not follow the parities of the model's grid."""
+    import zlib
+    return zlib.crc32(repr((what, sorted((k, v) for k, v in sc.items() if k != "smax"))).encode()) % 2 == 1
+
+
 def variables_of(sc):
     v0 = {k: sc[k] for k in ("x", "lb", "ub", "type", "ptype", "mag", "fnum", "fden")}
     # (the second variable's magnitude is NEGATIVE in every second scenario: a magnitude is a factor, not a size)
-    v1 = dict(v0, type=TYPES[(TYPES.index(sc["type"]) + 1) % 3], ptype="abs", mag=-1 if (sc["x"] + sc["mag"] + sc["fnum"]) % 2 else 1)
+    v1 = dict(v0, type=TYPES[(TYPES.index(sc["type"]) + 1) % 3], ptype="abs", mag=-1 if _coin(sc, "negative magnitude") else 1)
     # the third variable sits a quarter below a LARGE upper bound (131072): values within a relative 1e-5 of a bound are inside
-    v2 = (dict(v0, x=524287, lb=-INF_Q, ub=524288, type="truncate", ptype="abs", mag=4) if (sc["x"] + sc["lb"]) % 2 == 0
+    v2 = (dict(v0, x=524287, lb=-INF_Q, ub=524288, type="truncate", ptype="abs", mag=4) if _coin(sc, "large bound")
           else dict(v0, lb=-INF_Q, ub=INF_Q, type="mirror", ptype="abs", mag=4))
     return [v0, v1, v2]
 
@@ -43,7 +49,7 @@ def drive(sc):
     designs = [samples, samples2]
     P = len(samples)
 
-    zero_weight = (sc["x"] + sc["mag"]) % 2 == 0
+    zero_weight = _coin(sc, "zero weight")
 
     def gradient_section():
         return {"number_of_perturbations": P, "samplers": [0, 1, 0],
@@ -53,7 +59,7 @@ def drive(sc):
     cfg = {
         # (variable types are the back-end's business: declaring variables INTEGER does not round their perturbations)
         "variables": {"initial_values": [q2f(v["x"]) for v in vs], "lower_bounds": [q2f(v["lb"]) for v in vs],
-                      "upper_bounds": [q2f(v["ub"]) for v in vs], **({"types": [2, 1, 2]} if (sc["x"] + sc["ub"]) % 2 else {})},
+                      "upper_bounds": [q2f(v["ub"]) for v in vs], **({"types": [2, 1, 2]} if _coin(sc, "integer types") else {})},
         # (every second scenario: the second realization has weight zero and the gradient is requested separately from the
         #  functions - its perturbed vectors are evaluated and reported all the same)
         "realizations": {"weights": [1.0, 0.0] if zero_weight else [1.0, 1.0]},
